@@ -355,6 +355,12 @@ impl Cartesian<'_> {
             return Err("Stopped".into());
         }
 
+        // The Cartesian part above was only checked for continuity (transition costs).
+        // The path must also be collision free (at the configured safety distances).
+        if trace.par_iter().any(|step| self.robot.collides(&step.joints)) {
+            return Err("Collision on the planned path".into());
+        }
+
         Ok(trace)
     }
 
